@@ -6,6 +6,7 @@ import (
 	"bytes"
 	"fmt"
 	"math/rand/v2"
+	"strings"
 
 	"github.com/mycoria/mycoria/frame"
 	"github.com/mycoria/mycoria/state"
@@ -639,8 +640,112 @@ func rekeyRoundTrip(res *core.Result, r *rand.Rand, history int) {
 	res.Case(fmt.Sprintf("rekey|%d", history), true)
 }
 
+// liveFrames: sealed frames stay alive as frame objects for a while - in the send queue of a link, in a handler
+// that builds its answer - while other workers use the same builder, including its refusing paths (a reply with an
+// empty or oversized payload, an oversized switch block or appendix is refused; the handler releases its frame as
+// always). Whatever the builder does meanwhile, a sealed frame that nobody touched must still carry the bytes it was
+// sealed with and unseal at the receiver to exactly the original payload.
+func liveFrames(res *core.Result, r *rand.Rand, rounds int) {
+	p := env.NewPair(r, "c02 live")
+	b := p.A.BuilderV
+	type live struct {
+		f       frame.Frame
+		bytes   []byte
+		payload []byte
+		mt      frame.MessageType
+	}
+	sizes := []int{20, 200, 500, 560, 1400, 1550, 4000, 5000, 9000, 9500, 9990}
+	build := func(size int) *live {
+		mt := []frame.MessageType{frame.SessionData, frame.RouterCtrl, frame.NetworkTraffic, frame.RouterPing}[r.IntN(4)]
+		payload := core.RandBytes(r, size)
+		f, err := b.NewFrameV1(p.A.IdentityV.IP, p.B.IdentityV.IP, mt, nil, payload, nil)
+		if err != nil {
+			return nil
+		}
+		if err := f.Seal(p.AB); err != nil {
+			f.ReturnToPool()
+			return nil
+		}
+		d, _ := f.FrameDataWithMargins(0, 0)
+		return &live{f, append([]byte(nil), d...), payload, mt}
+	}
+	for round := 0; round < rounds; round++ {
+		size := sizes[r.IntN(len(sizes))]
+		var held []*live
+		for i := 0; i < 2+r.IntN(3); i++ {
+			if l := build(size - r.IntN(10)); l != nil {
+				held = append(held, l)
+			}
+		}
+		// other work on the same builder, refusing paths included
+		var trace []string
+		for k := 0; k < 3+r.IntN(4); k++ {
+			v, err := b.NewFrameV1(p.B.IdentityV.IP, p.A.IdentityV.IP, frame.RouterPing, nil, core.RandBytes(r, size-r.IntN(10)), nil)
+			if err != nil {
+				continue
+			}
+			switch r.IntN(6) {
+			case 0:
+				err = v.Reply(nil, nil, nil)
+				trace = append(trace, fmt.Sprintf("reply with empty payload: %v", err != nil))
+			case 1:
+				err = v.Reply(nil, core.RandBytes(r, 10001+r.IntN(3000)), nil)
+				trace = append(trace, fmt.Sprintf("reply with oversized payload: %v", err != nil))
+			case 2:
+				err = v.ReplyTo(p.A.IdentityV.IP, p.B.IdentityV.IP, core.RandBytes(r, 256+r.IntN(50)), core.RandBytes(r, 30), nil)
+				trace = append(trace, fmt.Sprintf("reply with oversized switch block: %v", err != nil))
+			case 3:
+				err = v.Reply(nil, core.RandBytes(r, 30), core.RandBytes(r, 10001+r.IntN(100)))
+				trace = append(trace, fmt.Sprintf("reply with oversized appendix: %v", err != nil))
+			case 4:
+				cl := v.Clone()
+				cl.ReturnToPool()
+				trace = append(trace, "clone and release")
+			case 5:
+				_, err = b.NewFrameV1(p.B.IdentityV.IP, p.A.IdentityV.IP, frame.RouterPing, nil, nil, nil)
+				trace = append(trace, fmt.Sprintf("new frame with empty payload: %v", err != nil))
+			}
+			v.ReturnToPool()
+		}
+		// more frames of the same size class come alive
+		for i := 0; i < 2+r.IntN(3); i++ {
+			if l := build(size - r.IntN(10)); l != nil {
+				held = append(held, l)
+			}
+		}
+		for i, l := range held {
+			d, err := l.f.FrameDataWithMargins(0, 0)
+			if err != nil || !bytes.Equal(d, l.bytes) {
+				res.Violate("sealed-live-frame-changed", fmt.Sprintf("frame %d of %d (type %d, %d payload bytes), sealed and not touched since, no longer carries the bytes it was sealed with after other work on its builder [%s]", i, len(held), l.mt, len(l.payload), strings.Join(trace, "; ")), map[string]any{"case_id": "live-frames"})
+				return
+			}
+			g, err := p.B.BuilderV.ParseFrame(append([]byte(nil), d...), nil, 0)
+			if err != nil {
+				res.Violate("sealed-live-frame-unparsable", fmt.Sprintf("a sealed live frame does not parse at the receiver: %v", err), map[string]any{"case_id": "live-frames"})
+				return
+			}
+			err = g.Unseal(p.BA)
+			if err != nil || !bytes.Equal(g.MessageData(), l.payload) {
+				g.ReturnToPool()
+				res.Violate("roundtrip-fails:live-frame", fmt.Sprintf("a sealed frame kept alive during other work on its builder does not unseal to its payload: %v [%s]", err, strings.Join(trace, "; ")), map[string]any{"case_id": "live-frames"})
+				return
+			}
+			g.ReturnToPool()
+		}
+		for _, l := range held {
+			l.f.ReturnToPool()
+		}
+		res.Count("live_frame_rounds", 1)
+		res.Count("live_frames_checked", int64(len(held)))
+	}
+	res.Case(fmt.Sprintf("live-frames|%d", rounds), true)
+}
+
 func run(c *core.Ctx) {
 	res := c.Res
+	for i := 0; i < c.Q(4, 16); i++ {
+		liveFrames(res, core.RNG(fmt.Sprintf("c02/live/%d", i)), c.Q(150, 1500))
+	}
 	for i := 0; i < c.Q(9, 63); i++ {
 		rolloverIsolation(res, core.RNG(fmt.Sprintf("c02/rollover/%d", i)), 1+i%3, 1+(i/3)%3)
 	}
@@ -677,4 +782,5 @@ func run(c *core.Ctx) {
 	res.Assume("a parse error on a mutated frame counts as rejection (nothing is delivered)")
 	res.Assume("appendix bytes beyond the first 64 and the last one are not flipped individually (each must-accept experiment needs a fresh receiver)")
 	res.Require(res.Counter("frames_fully_explored") >= int64(n*9/10), "fewer frames fully explored than planned")
+	res.Require(res.Counter("live_frames_checked") >= 1000, "fewer than 1000 sealed frames checked after staying alive during other work on their builder")
 }
